@@ -59,7 +59,9 @@ def floor_of(log):
                     f = 0
                 else:
                     cat = vocab.category(callee[1])
-                    if cat == "builtins":
+                    if (callee[1], callee[2]) in vocab.EXEC_ALIASES:
+                        f = 5  # the very same function object as the builtin
+                    elif cat == "builtins":
                         f = 5 if callee[2] in vocab.EXEC_BUILTINS else 3
                     elif cat == "nonstd":
                         f = 3
